@@ -48,7 +48,7 @@ M = [  # (name, file, old, new, property)
     ('arity-binary-allows-w', '_utils.py', "        if v is None:\n            raise ValueError(\n                '`v is None`')\n        if w is not None:\n            raise ValueError(\n                f'`w is not None`, but: {w}')\n    elif op in operators['ternary']:", "        if v is None:\n            raise ValueError(\n                '`v is None`')\n    elif op in operators['ternary']:", 'C17'),
     ('init-terminal-resets-count', 'bdd.py', "        self._ref.setdefault(u, 1)", "        self._ref[u] = 1", 'C08'),
     ('init-minfree-3', 'bdd.py', "        self._min_free: _Nat = 2\n", "        self._min_free: _Nat = 3\n", 'C02'),
-    ('init-terminal-level-1', 'bdd.py', "        self._init_terminal(len(self.vars))\n        self._reordering_context: _Yes = False", "        self._init_terminal(1)\n        self._reordering_context: _Yes = False", 'C02'),
+    ('init-terminal-level-1', 'bdd.py', "        # handle no vars\n        self._init_terminal(len(self.vars))", "        # handle no vars\n        self._init_terminal(1)", 'C02'),
     ('harmless-ite-high-first', 'bdd.py', "        p = self._ite(g0, u0, v0)\n        q = self._ite(g1, u1, v1)\n", "        q = self._ite(g1, u1, v1)\n        p = self._ite(g0, u0, v0)\n", 'C01'),
     ('harmless-add_var-inverse-first', 'bdd.py', "        self.vars[var] = level\n        self._level_to_var[level] = var\n", "        self._level_to_var[level] = var\n        self.vars[var] = level\n", 'C14'),
     ('harmless-foa-incref-order', 'bdd.py', "        self.incref(v)\n        self.incref(w)\n        return r * u", "        self.incref(w)\n        self.incref(v)\n        return r * u", 'C06'),
